@@ -14,6 +14,7 @@ import (
 	"github.com/gogo/protobuf/proto"
 	pb "github.com/ipfs/boxo/ipld/unixfs/pb"
 	"github.com/ipfs/go-cid"
+	"github.com/ipfs/go-unixfsnode"
 	"github.com/ipfs/go-unixfsnode/data"
 	"github.com/ipfs/go-unixfsnode/data/builder"
 	"github.com/ipfs/go-unixfsnode/file"
@@ -711,6 +712,8 @@ func exerciseDAG(c *mon.Case, st *store.Store, root cid.Cid, class string) {
 	}{
 		{"Reify", func() (ipld.Node, error) { return reify(ls, raw) }},
 		{"unixfs", func() (ipld.Node, error) { return ls.KnownReifiers["unixfs"](ipld.LinkContext{Ctx: bg}, raw, ls) }},
+		// the zero LinkContext (no context at all), which go-ipld-prime accepts
+		{"Reify(zero LinkContext)", func() (ipld.Node, error) { return unixfsnode.Reify(ipld.LinkContext{}, raw, ls) }},
 		{"unixfs-preload", func() (ipld.Node, error) {
 			return ls.KnownReifiers["unixfs-preload"](ipld.LinkContext{Ctx: bg}, raw, ls)
 		}},
